@@ -149,9 +149,24 @@ def handle (line : String) : String :=
     let b := elemwiseBw (parseChunksList args)
     answer (bwChunkss b) (bwBlock b .same) (parseCoords coords)
   | ["squeeze", x, axes, coords] =>
-    handleMB (squeezeMB (parseChunks x) (parseNats axes)) ("squeeze:" ++ axes) coords
+    -- sc = the structural formula of the theorem (removeAxes / unsqueezeCoords) agrees with the map_blocks derivation
+    let xc := parseChunks x
+    let ax := parseNats axes
+    let cs := parseCoords coords
+    let sc := match mapBlocksToBw (squeezeMB xc ax) with
+      | some b => bwChunkss b == some (removeAxes ax xc) &&
+          cs.all (fun co => bwBlock b (.squeeze ax) co == (extents xc (unsqueezeCoords ax 0 xc co)).bind (squeezeShape ax))
+      | none => false
+    handleMB (squeezeMB xc ax) ("squeeze:" ++ axes) coords ++ " sc=" ++ (if sc then "1" else "0")
   | ["expand", x, axes, coords] =>
-    handleMB (expandDimsMB (parseChunks x) (parseNats axes)) ("expand:" ++ axes) coords
+    let xc := parseChunks x
+    let ax := parseNats axes
+    let cs := parseCoords coords
+    let sc := match mapBlocksToBw (expandDimsMB xc ax) with
+      | some b => bwChunkss b == some (expandAxes ax [1] xc) &&
+          cs.all (fun co => bwBlock b (.expandDims ax) co == (extents xc (removeAxes ax co)).map (expandAxes ax 1))
+      | none => false
+    handleMB (expandDimsMB xc ax) ("expand:" ++ axes) coords ++ " sc=" ++ (if sc then "1" else "0")
   | ["permute", x, axes, coords] =>
     let b := permuteBw (parseChunks x) (parseNats axes)
     answer (bwChunkss b) (bwBlock b .same) (parseCoords coords)
